@@ -26,13 +26,13 @@ from . import rules_order as RO, rules_tower as RT, rules_plugin as PL, rules_pa
 STATIC = ("This check decides structural clauses that are necessary conditions of the property, for ALL paths / thread pairs / table rows of the "
           "compiled program (MIR of /repo's working tree); it does not decide the behavioural statement as a whole. ")
 
-prop("C01", [RO.rule_OR1, RO.rule_OR2_watcher, RO.rule_OR2_responder, RO.rule_CR, LK.rule_AT1, RO.rule_EF1, RO.rule_EF3, SQ.rule_SQ4],
+prop("C01", [RO.rule_OR1, RO.rule_OR2_watcher, RO.rule_OR2_responder, RO.rule_CR, LK.rule_AT1, RO.rule_EF1, RO.rule_EF3, SQ.rule_SQ4, RO.rule_TX],
      STATIC + "Decided: listener order Gatekeeper>Watcher>Responder (OR1); the breach pipeline is complete on every path — cache update, DB intersection, "
      "decrypt with the matched dispute's txid, hand-over to the responder, node decision, tracker iff accepted, failures and only failures to the delete list, "
      "no early loop exit (OR2w/OR2r); no accepted-but-unwatched window against the block thread (AT1); cache window 6 / index 100 / locator 16 bytes (EF3); "
      "breach provenance (EF1). NOT decided: that the right set of breaches is computed for every history (SQL IN semantics, collisions, node verdict mapping).",
      technique="MIR path-fact dataflow + origin tracing + lock-span analysis")
-prop("C02", [RO.rule_EF1, RO.rule_OR2_responder, RO.rule_CR, RO.rule_OR2_gatekeeper, RO.rule_OR1, SQ.rule_SQ1],
+prop("C02", [RO.rule_EF1, RO.rule_OR2_responder, RO.rule_CR, RO.rule_OR2_gatekeeper, RO.rule_OR1, SQ.rule_SQ1, RO.rule_TX],
      STATIC + "Decided: only Carrier::send_transaction reaches sendrawtransaction, and every transaction handed to it is either the Ok payload of "
      "decrypt(blob, txid(dispute)) paired with that dispute, or a field of a stored tracker (EF1); tracker iff accepted, both disconnect handlers purge their index (OR2r); "
      "owner removal precedes Watcher/Responder and cascades in the DB, foreign keys switched on in the production constructor (OR1, OR2g, SQ1). "
@@ -44,7 +44,7 @@ prop("C03", [RO.rule_OR3, LK.rule_CBS, SQ.rule_SQ3, SQ.rule_SQ1, LK.rule_AT2, RO
      "multi-statement writes are one committed sqlite transaction (SQ3); cascades on (SQ1); one critical section and one DB delete per balance update (AT2); "
      "memory purge always followed by the DB purge (OR2g). NOT decided: enumeration of crash points, replay equivalence, partial-progress semantics of the SPV client.",
      technique="must-precede / must-follow path analysis on MIR + SQL statement tables")
-prop("C04", [RO.rule_OR2_responder, RO.rule_CR, RO.rule_EF2, RO.rule_EF3, SQ.rule_SQ4],
+prop("C04", [RO.rule_OR2_responder, RO.rule_CR, RO.rule_EF2, RO.rule_EF3, SQ.rule_SQ4, RO.rule_TX],
      STATIC + "Decided: Responder connect/disconnect pipelines complete on all paths; reorg handler gated by coming_from_reorg and re-announces dispute then penalty of the stored tracker; "
      "rejected re-submissions queued for the no-refund delete; completion guard `current_height - h == IRREVOCABLY_RESOLVED` on ConfirmedIn(h); rebroadcast threshold "
      "InMempoolSince(height - 6) (OR2r); refund flag constant and true exactly for check_confirmations' list (EF2); constants 100/6 (EF3). "
